@@ -41,6 +41,7 @@ def _mk(ctx):
 
 # ------------------------------------------------------------------------ C15.1
 def check_nesting(ctx):
+    m = ctx.model
     f = _mk(ctx)
     ctx.saw(f)
     at = f.params[0]
@@ -116,6 +117,9 @@ def check_nesting(ctx):
         ge = a.value.args[0]
         if len(ge.generators) == 1 and norm(ge.generators[0].iter) == "dtypes" and len(ge.generators[0].ifs) == 1 and norm(ge.generators[0].ifs[0]) == f"{norm(ge.elt)} in {at}.dtypes":
             ok_f = True
+    if not ok_f and dt and any(isinstance(c_, ast.Call) and m.resolve_call(f, c_).kind == "func" for a in dt for c_ in ast.walk(a.value)):
+        # the intersection is computed by a helper of the package: whether it is the documented intersection depends on what it does with the values
+        raise AnalysisError(f"C15.1: the dtypes of a nested annotation are computed through `{short(dt[0].value, 60)}`; the rule only reads the membership filter")
     if not ok_f:
         ctx.bad("C15.1", f, dt[0] if dt else nb, "the dtypes of a nested annotation are not the outer dtypes filtered by membership in the inner ones (the documented intersection)")
     else:
@@ -182,6 +186,9 @@ def check_union_typevar(ctx):
     lvs = leaves_of(lc.elt)
     made = [e for e in lvs if isinstance(e, ast.Call) and norm(e.func) == "_make_array"]
     raw = [e for e in lvs if e not in made]
+    if not members_iter(lc.generators[0].iter) and isinstance(lc.generators[0].iter, ast.Call) and m.resolve_call(f, lc.generators[0].iter).kind == "func":
+        # the members come from a helper of the package (it may flatten nested unions, drop or add members): what it yields is a matter of values
+        raise AnalysisError(f"C15.2: the union members are produced by `{short(lc.generators[0].iter, 50)}`; whether they are exactly the members of the union is not decided statically")
     if not members_iter(lc.generators[0].iter) or lc.generators[0].ifs:
         ctx.bad("C15.2", f, lc, f"union members are not each built as _make_array(member, dim_str, cls): `{norm(lc)}`")
     elif raw:
